@@ -972,6 +972,9 @@ func (f *fsm) established() (fsmState, error) {
 	}
 
 	to, err := established()
+	// wait for the keepalive manager goroutine: it reads holdTime,
+	// keepAliveTimer and keepAliveInterval, which the next OpenSent rewrites
+	<-kaManagerDoneCh
 	verifPoint("established.teardown", f)
 	f.cleanupConnAndReader()
 	f.holdTimer.Stop()
